@@ -95,7 +95,7 @@ def make_rel(rng, N=8, order=4, vacuum=False, Lambda=0.0, shift=True, fluid=Fals
     for k, v_ in (extra or {}).items():
         rel.data[k] = v_
     rel.freeze_data()
-    return rel
+    return watch(rel)
 
 
 # ----------------------------------------------------------------------------- request-history pass (generic)
@@ -178,3 +178,45 @@ def history_pass(ctx, index, keys, factory, prop, Ns=(8, 16), max_alts=None):
                 {"kind": "history", "key": key, "requested_first": ps, "alternative_of": k, "deviation": [d1, d2], "N": list(Ns)},
                 {"site": key, "oracle": "history-independence", "alternative_of": k}) else 0
     return found
+
+
+# ----------------------------------------------------------------------------- cached entries stay what they were
+def watch(rel):
+    """Make `rel` remember a checksum of every cached array and verify, after every top-level request, that no entry
+    still cached (same object) has changed: an algebraic identity checked on values that were silently rewritten in
+    place by a LATER request would otherwise be judged on the wrong data.  Violations are collected in rel._w_viol."""
+    import hashlib
+    base = rel.__class__
+
+    def cs(v):
+        a = np.ascontiguousarray(v) if isinstance(v, np.ndarray) else None
+        return hashlib.sha1(a.view(np.uint8)).hexdigest() if a is not None and a.dtype != object else None
+
+    def getitem(self, key):
+        depth = self.__dict__.setdefault("_w_depth", 0)
+        self.__dict__["_w_depth"] = depth + 1
+        try:
+            val = base.__getitem__(self, key)
+        finally:
+            self.__dict__["_w_depth"] = depth
+        if depth == 0:
+            seen = self.__dict__.setdefault("_w_seen", {})
+            for k, v in list(self.data.items()):
+                c = cs(v)
+                old = seen.get(k)
+                if old is not None and old[0] is v and c is not None and old[1] != c:
+                    self.__dict__.setdefault("_w_viol", []).append((k, key))
+                seen[k] = (v, c)
+        return val
+    rel.__class__ = type("Watched" + base.__name__, (base,), {"__getitem__": getitem})
+    return rel
+
+
+def report_mutations(ctx, rel, what=""):
+    n = 0
+    for k, key in rel.__dict__.get("_w_viol", [])[:3]:
+        n += 1 if ctx.violation("the cached entry '%s' was modified in place while '%s' was being computed%s" % (k, key, what),
+                                {"kind": "history", "modified": k, "during": key},
+                                {"site": k, "oracle": "cached entry modified in place"}) else 0
+    rel.__dict__["_w_viol"] = []
+    return n
